@@ -630,6 +630,9 @@ class Network:
         self.on_connection: t.Optional[t.Callable[[Connection], None]] = None
         self.gate: t.Optional[t.Callable[[Connection, bytes], t.Awaitable[None]]] = None  # async reply gate
         self.close_gate: t.Optional[t.Callable[[Connection], t.Awaitable[None]]] = None
+        # virtual time: this many seconds pass between two segments of a reply when a schedule splits it (a slow link).
+        # A blocking socket waits; one that still carries a shorter timeout raises TimeoutError, as a real one would.
+        self.read_gap = 30.0
 
     def accept(self, host: str, port: int) -> Connection:
         self.nconn += 1
@@ -643,7 +646,9 @@ class Network:
 
     # sync
     def create_connection(self, address: tuple, timeout: t.Any = None, *a: t.Any, **k: t.Any) -> "FakeSocket":
-        return FakeSocket(self.accept(address[0], address[1]), self)
+        sock = FakeSocket(self.accept(address[0], address[1]), self)
+        sock.timeout = timeout if isinstance(timeout, (int, float)) else None       # socket.create_connection(timeout=...) leaves it set
+        return sock
 
     # async
     async def open_connection(self, host: str, port: int = 0, **k: t.Any):
@@ -675,9 +680,17 @@ class FakeSocket:
         self.reads = 0
         self.eof = False
         self.closed = False
+        self.timeout: t.Optional[float] = None
+        self.short_read = False
 
     def settimeout(self, t_: t.Any) -> None:
-        pass
+        self.timeout = t_
+
+    def gettimeout(self) -> t.Optional[float]:
+        return self.timeout
+
+    def setblocking(self, flag: bool) -> None:
+        self.timeout = None if flag else 0.0
 
     def sendall(self, data: bytes) -> None:
         if self.closed:
@@ -692,10 +705,14 @@ class FakeSocket:
             raise RuntimeError("MACHINERY: runaway reads")
         if not self.rx:
             return b""
+        gap = getattr(self.net, "read_gap", 0) or 0
+        if self.short_read and self.timeout is not None and gap > self.timeout:
+            raise TimeoutError("timed out")           # socket.timeout: the next segment is `gap` seconds away
         k = n
         if self.net.schedule:
             k = max(1, min(n, self.net.schedule(n)))
         out, self.rx = self.rx[:k], self.rx[k:]
+        self.short_read = k < n and bool(self.rx)
         return out
 
     def recv(self, n: int, flags: int = 0) -> bytes:
